@@ -123,6 +123,9 @@ def rule_a(ctx):
                     ctx.violation("C15-A", k, r["site"], b.id, "option field without a sanctioned-reader row (new option?)")
                     continue
                 okc = False
+                d0 = r["detail"]
+                if r["kind"] == "plumbing" and isinstance(d0, tuple) and d0[0] == "agg" and ends(str(d0[1]), owner) and d0[2] == f["name"]:
+                    okc = True  # copied into the same field of a new value of the same struct (`Self { x, ..self }`)
                 for (kind, fn, pred) in rows:
                     if kind == r["kind"] and (ends(fk, fn) or ends(b.id, fn)):
                         d = r["detail"]
@@ -382,6 +385,17 @@ def rule_c(ctx):
                     for o in st["rv"]["ops"]:
                         at |= b.atoms(o)
                     got[last["n"]] = "Some(arg)" if st["rv"].get("variant") == "Some" and ("arg", 2) in at else "?"
+        if not got:
+            # the setter written with struct-update syntax: `Self { raw, draw_borders: false, ..self }` — every field that
+            # is not copied from the same field of self counts as written
+            for x in sorted(b.reachable()):
+                for st in b.stmts(x):
+                    rv = st.get("rv") or {}
+                    if st["k"] == "assign" and rv.get("agg") == "adt" and ends(rv.get("adt"), "config::Config"):
+                        for fld, o in zip(rv["fields"], rv["ops"]):
+                            if direct_field(b, o) == ("config::Config", fld):
+                                continue
+                            got[fld] = _value_form(b, o)
         n += 1
         ctx.check(got == want, "C15-C", "setter:%s" % nm, b.span, b.id, "writes %s, documented %s" % (got, want))
     ctx.floor("C15-C", "builder setters", n, 9)
